@@ -112,3 +112,39 @@ def baseline(repo_path):
         return 0 if rc == 0 else 1
     finally:
         shutil.rmtree(tmp, ignore_errors=True)
+
+
+def build_locale(bdir):
+    """A single-byte locale (ISO-8859-1 layout, LC_CTYPE only) compiled with localedef(1) into bdir/locales/eav_latin1: the sandbox ships C and C.utf8 only,
+    and a library that classifies bytes with the locale-dependent <ctype.h> functions behaves differently once the application has called setlocale().
+    Returns the LOCPATH directory, or None if localedef cannot build it (the locale steps then run with C.UTF-8 only)."""
+    ldir = os.path.join(bdir, 'locales')
+    if os.path.exists(os.path.join(ldir, 'eav_latin1', 'LC_CTYPE')): return ldir
+    os.makedirs(ldir, exist_ok=True)
+    cm = os.path.join(bdir, 'LATIN1.charmap'); src = os.path.join(bdir, 'eav_latin1.src')
+    with open(cm, 'w') as f:
+        f.write('<code_set_name> EAV-LATIN1\n<comment_char> %\n<escape_char> /\n<mb_cur_min> 1\n<mb_cur_max> 1\nCHARMAP\n')
+        for i in range(256): f.write('<U%04X> /x%02x\n' % (i, i))
+        f.write('END CHARMAP\n')
+    pairs = lambda a, b: ';'.join('(<U%04X>,<U%04X>)' % (a + i, b + i) for i in range(26))
+    with open(src, 'w') as f:
+        f.write("""comment_char %%
+escape_char /
+LC_CTYPE
+upper <U0041>..<U005A>;<U00C0>..<U00D6>;<U00D8>..<U00DE>
+lower <U0061>..<U007A>;<U00AA>;<U00B5>;<U00BA>;<U00DF>..<U00F6>;<U00F8>..<U00FF>
+alpha <U0041>..<U005A>;<U0061>..<U007A>;<U00AA>;<U00B5>;<U00BA>;<U00C0>..<U00D6>;<U00D8>..<U00F6>;<U00F8>..<U00FF>
+digit <U0030>..<U0039>
+space <U0009>..<U000D>;<U0020>;<U0085>;<U00A0>
+cntrl <U0000>..<U001F>;<U007F>..<U009F>
+punct <U0021>..<U002F>;<U003A>..<U0040>;<U005B>..<U0060>;<U007B>..<U007E>;<U00A1>..<U00A9>;<U00AB>..<U00B4>;<U00B6>..<U00B9>;<U00BB>..<U00BF>;<U00D7>;<U00F7>
+graph <U0021>..<U007E>;<U00A1>..<U00FF>
+print <U0020>..<U007E>;<U00A0>..<U00FF>
+xdigit <U0030>..<U0039>;<U0041>..<U0046>;<U0061>..<U0066>
+blank <U0009>;<U0020>;<U00A0>
+toupper %s
+tolower %s
+END LC_CTYPE
+""" % (pairs(97, 65), pairs(65, 97)))
+    sh(['localedef', '-c', '-f', cm, '-i', src, os.path.join(ldir, 'eav_latin1')])
+    return ldir if os.path.exists(os.path.join(ldir, 'eav_latin1', 'LC_CTYPE')) else None
